@@ -40,6 +40,8 @@ def run(ctx):
                 extra.append((ver, t))
     ctx.extra["accepted_edited_strings"] = len(extra)
     items += extra
+    from .. import conc
+    conc.flag_variants(ctx, [["C", v, s] for v, s in items[:: max(1, len(items) // ctx.n(120, 1200))] if core.sendable(s)], "json")
     # grammar verdicts (Lean) for every input in one batch: used to tell 'valid vector echoed in another field order' from
     # 'accepted string that is not a vector at all' when the echoed vectorString fails the schema's pattern
     if ctx.model_available:
